@@ -96,8 +96,14 @@ pub fn run(tier: &str, seed: u64, out: &str) {
         }
     }).collect();
     let mods = model::eval(&reqs);
+    // is the document in the domain `inD` of the Lean theorem `C01_extract_total`?
+    let dreqs: Vec<String> = cases.iter().map(|c| match parse_spec(&serde_json::to_string(&c.doc).unwrap(), true) { Ok(s) => format!("(in_d {})", specio::spec(&s)), Err(_) => "(noop)".to_string() }).collect();
+    let in_d: Vec<bool> = model::eval(&dreqs).iter().map(|m| m.trim() == "true").collect();
     let mut nontrivial = 0u64;
-    for ((c, r), m) in cases.iter().zip(runs.iter()).zip(mods.iter()) {
+    for (((c, r), m), ind) in cases.iter().zip(runs.iter()).zip(mods.iter()).zip(in_d.iter()) {
+        rep.bump(&format!("document {} the theorem's domain inD, generation {}", if *ind { "in" } else { "outside" }, if r.status == "exit 0" { "succeeded" } else { "failed" }));
+        // the theorem transferred to the code: on a document of inD the run never stops inside the extractor
+        if *ind && m.starts_with("(panic (extract") { rep.disagree(&case_text(c, r.prior), "inD holds", &format!("the model's extractor fails although C01_extract_total excludes it: {m}")); }
         for f in &c.features { rep.bump(&format!("feature:{f}")); }
         rep.bump(&format!("prior:{}", r.prior));
         rep.bump(&format!("status:{}", r.status));
